@@ -245,12 +245,18 @@ func (p c17) Run(c *fw.Case) {
 		return
 	}
 	d.root["$ref"] = "#" + fragEncode(d.pointer)
+	if c.Idx%7 == 3 {
+		// a second reference keyword in the same object, lexically resolved and permissive: the verdicts still hinge on $ref alone
+		d.root["$defs"].(map[string]any)["zz-any"] = map[string]any{"type": "string"}
+		d.root["$dynamicRef"] = "#/$defs/zz-any"
+	}
 	text := gen.Text(d.root)
 	var opts *jsonschema.ResolveOptions
 	if c.Idx%5 == 1 {
 		// the same tree served by a Loader: the pointer fragment follows a document URI, the document is loaded while the
 		// reference is being resolved, and the loaded document holds pointer references of its own
 		delete(d.root, "$ref")
+		delete(d.root, "$dynamicRef")
 		d.root["$defs"].(map[string]any)["zz-other"] = map[string]any{"$ref": "#/$defs/T"}
 		if r.IntN(2) == 0 {
 			d.root["allOf"] = []any{map[string]any{"$ref": "#/$defs/zz-other"}}
